@@ -126,6 +126,7 @@ def _run_job(job):
         import symtorch.explore as ex
 
         ex.EXP.reset_all()
+        ex.DEADLINE[0] = time.time() + float(os.environ.get("VERIF_JOB_BUDGET_S", "1500"))
         mod = importlib.import_module(job["module"])
         params = dict(job.get("params", {}))
         if "mutations" in params:
@@ -152,7 +153,7 @@ def run_jobs(jobs, nproc=None):
 
 
 # ------------------------------------------------------------------------------------------ torch side
-def torch_run(requests, timeout=1200):
+def torch_run(requests, timeout=None):
     """execute replay / differential requests on the real library (separate interpreter with torch)"""
     if not requests:
         return []
@@ -161,8 +162,12 @@ def torch_run(requests, timeout=1200):
         with open(inp, "w") as f:
             json.dump(requests, f)
         env = dict(os.environ, PYTHONPATH=REPO, CUDA_VISIBLE_DEVICES="", PYTHONWARNINGS="ignore")
-        p = subprocess.run([TORCH_PY, os.path.join(ROOT, "vf", "torch_exec.py"), inp, outp], env=env, cwd=d,
-                           stdout=subprocess.PIPE, stderr=subprocess.PIPE, text=True, timeout=timeout)
+        timeout = timeout or float(os.environ.get("VERIF_TORCH_TIMEOUT_S", "900"))
+        try:
+            p = subprocess.run([TORCH_PY, os.path.join(ROOT, "vf", "torch_exec.py"), inp, outp], env=env, cwd=d,
+                               stdout=subprocess.PIPE, stderr=subprocess.PIPE, text=True, timeout=timeout)
+        except subprocess.TimeoutExpired:
+            return [{"error": f"real-torch run did not finish within {timeout} s", "timeout": True} for _ in requests]
         if p.returncode != 0 or not os.path.exists(outp):
             raise RuntimeError("torch_exec failed: " + p.stderr[-3000:])
         with open(outp) as f:
